@@ -80,6 +80,8 @@ def run_variant(args):
             rules.run_all(ctx)
         except CheckError as e:
             err = 'CHECK-ERROR: %s' % e
+        if ctx.errors and not err:
+            err = 'CHECK-ERROR: %s' % '; '.join(ctx.errors)[:400]
         failing = sorted({r.rule for r in ctx.results if not r.ok})
         keys = sorted({r.key() for r in ctx.results if not r.ok})
         new = [k for k in keys if k not in baseline_fail]
